@@ -25,7 +25,26 @@ def flat_nodes(F, fn, depth=0, seen=None):
                 for c in F.functions.get(n.get('callee'), []):
                     if c['sig'] == n.get('csig') and c.get('access') == 2 and (c['name'], c['sig']) not in seen and c['name'] != fn['name']:
                         seen.add((c['name'], c['sig']))
-                        yield from flat_nodes(F, c, depth + 1, seen)
+                        yield from flat_nodes(F, _bound_copy(c, n), depth + 1, seen)
+        if depth < 3 and n.get('k') == 'Call' and n.get('ck') == 'function' and n.get('calleeInRoot'):
+            # a file-local helper function of the same translation unit (static void truncateLogContainer(LogContainer &, ...))
+            for c in F.functions.get(n.get('callee'), []):
+                if c['sig'] == n.get('csig') and c.get('kind') == 'function' and c.get('file') == fn.get('file') and (c['name'], c['sig']) not in seen:
+                    seen.add((c['name'], c['sig']))
+                    yield from flat_nodes(F, _bound_copy(c, n), depth + 1, seen)
+
+
+def _bound_copy(c, call):
+    """the helper as the call site sees it: parameters bound to the arguments where that is sound (flow.Flow.bind_params)"""
+    try:
+        body = flow.Flow.bind_params(c.get('params', []), call.get('args', []), c['body'])
+    except Exception:
+        return c
+    if body is c['body']:
+        return c
+    c2 = dict(c)
+    c2['body'] = body
+    return c2
 
 
 def is_private_helper(F, fn):
